@@ -1,3 +1,3 @@
 From Coq Require Import ZArith List Extraction ExtrOcamlBasic.
 From Sky Require Import Result Num M_Weights.
-Extraction "model.ml" weights_eval stacked_ratio multi_eval slices sw_ratio Z.of_nat Z.to_nat.
+Extraction "model.ml" weights_eval weights_eval_svc multi_eval_svc stacked_ratio multi_eval slices sw_ratio Z.of_nat Z.to_nat.
